@@ -12,7 +12,8 @@
 (*   tbl(join, schema, name) / cteref(join, name)   a FROM item            *)
 (*   sub(join) ... end     a derived table                                 *)
 (*   paren(join) ... end   a parenthesised join  ( t1 JOIN t2 ON .. )      *)
-(*   where ... end         a subquery in WHERE                             *)
+(*   where ... end         a subquery in WHERE (a second one directly      *)
+(*                         after it: the other side of the comparison)     *)
 (*   isub ... end          a scalar subquery in the select list            *)
 (*   having ... end        a subquery in HAVING                            *)
 (*   on ... end            a subquery in the ON condition of the join just *)
@@ -65,7 +66,8 @@ Tbl(s, n) == (IF s # None THEN s ELSE IF ds # None THEN ds ELSE "<default>") \o 
 \* a frame = one query scope.  groups: the comma-separated from_expressions, each a sequence of relation
 \* contributions <<intended set of tables, deviant set>>; extra: tables found through WHERE / select-list / HAVING subqueries
 Frame(role) == [role |-> role, groups |-> <<>>, extra |-> {}, extraDev |-> {}, acc |-> {}, accDev |-> {},
-                wh |-> FALSE, it |-> FALSE, hv |-> FALSE, br |-> 1,
+                wh |-> 0,          \* subqueries in this branch's WHERE so far (two: both sides of one comparison, clause "where2")
+                it |-> FALSE, hv |-> FALSE, br |-> 1,
                 on |-> FALSE,      \* the last FROM item was joined with ON and its condition has no subquery yet
                 nb |-> FALSE]      \* the last branch was a nested set operation: the query can only end now
 Top == stack[Len(stack)]
@@ -87,7 +89,7 @@ ContributionDev(f) ==
    THEN UNION {f.groups[i][1][2] : i \in DOMAIN f.groups}
    ELSE UNION {UNION {f.groups[i][j][2] : j \in DOMAIN f.groups[i]} : i \in DOMAIN f.groups}
 CloseBranch(f) == [f EXCEPT !.acc = @ \cup Contribution(f) \cup f.extra, !.accDev = @ \cup ContributionDev(f) \cup f.extraDev,
-                            !.groups = <<>>, !.extra = {}, !.extraDev = {}, !.wh = FALSE, !.it = FALSE, !.hv = FALSE, !.on = FALSE]
+                            !.groups = <<>>, !.extra = {}, !.extraDev = {}, !.wh = 0, !.it = FALSE, !.hv = FALSE, !.on = FALSE]
 \* which cte body are we in (outermost frame's role when it is a cte)
 InCteBody == IF stack # <<>> /\ stack[1].role \notin {"top"} THEN stack[1].role ELSE None
 
@@ -123,11 +125,13 @@ FromSub == /\ phase = "body" /\ NRel(Top) < MaxRel /\ ~Top.nb /\ \E j \in Joins 
 \* a parenthesised join is a FROM item made of FROM items: it opens a frame that takes relations only
 FromParen == /\ phase = "body" /\ NRel(Top) < MaxRel /\ "paren" \in Clauses /\ ~Top.nb
              /\ \E j \in Joins : Push(Ev("paren", j, None, None), "paren:" \o j, Top)
-WhereSub == /\ phase = "body" /\ NRel(Top) >= 1 /\ ~Top.wh /\ ~Top.hv /\ "where" \in Clauses /\ ~InParen
-            /\ Push(Ev("where", None, None, None), "where", [Top EXCEPT !.wh = TRUE])
+WhereSub == /\ phase = "body" /\ NRel(Top) >= 1 /\ Top.wh < (IF "where2" \in Clauses THEN 2 ELSE 1) /\ ~Top.hv /\ "where" \in Clauses /\ ~InParen
+            \* the second one directly follows the first: WHERE ( SELECT .. ) > ( SELECT .. )
+            /\ (Top.wh = 1 => prog[Len(prog)].e = "end")
+            /\ Push(Ev("where", None, None, None), "where", [Top EXCEPT !.wh = @ + 1])
 \* an UPDATE ... FROM has no select list, HAVING or set operation of its own
 TopOfUpdate == StmtKind = "update" /\ Len(stack) = 1
-ItemSub == /\ phase = "body" /\ NRel(Top) >= 1 /\ ~Top.it /\ ~Top.wh /\ ~Top.hv /\ "isub" \in Clauses /\ ~TopOfUpdate /\ ~InParen
+ItemSub == /\ phase = "body" /\ NRel(Top) >= 1 /\ ~Top.it /\ Top.wh = 0 /\ ~Top.hv /\ "isub" \in Clauses /\ ~TopOfUpdate /\ ~InParen
            /\ Push(Ev("isub", None, None, None), "scalar", [Top EXCEPT !.it = TRUE])
 HavingSub == /\ phase = "body" /\ NRel(Top) >= 1 /\ ~Top.hv /\ "having" \in Clauses /\ ~TopOfUpdate /\ ~InParen
              /\ Push(Ev("having", None, None, None), "having", [Top EXCEPT !.hv = TRUE])
